@@ -235,3 +235,43 @@ func digitRunInputs(thorough bool, fn func([]byte)) {
 		}
 	}
 }
+
+// stringRunInputs: string tokens whose content is a run of k plain bytes followed by one "element" (a byte value, an
+// escape, a multi-byte rune, a truncated rune) and a short tail, for every k up to 40 and around the powers of two up
+// to 1024 (thorough: 4096): block-at-a-time string scanners, copiers and sanitisers are wrong only for particular run
+// lengths, alignments and bytes, and only when an element straddles a block boundary.
+// allBytesUpTo bounds the run lengths for which every byte value is tried as the element.
+func stringRunInputs(thorough bool, allBytesUpTo int, fn func(tok []byte, k int)) {
+	ks := []int{}
+	for k := 0; k <= 40; k++ {
+		ks = append(ks, k)
+	}
+	for _, p := range []int{48, 64, 128, 256, 512, 1024} {
+		ks = append(ks, p-1, p, p+1)
+	}
+	if thorough {
+		ks = append(ks, 2047, 2048, 2049, 4095, 4096, 4097)
+	}
+	elems := []string{`\n`, `\"`, `\\`, `\/`, `é`, `\u0000`, `😀`, `\ud800`, `\udc00x`, "é", "€", "😀", "\xe2\x82", "\xf0\x9f\x98",
+		"\xed\xa0\x80", "\xc0\xaf", "\xff", "\x80", "\x00", "\x1f", "\x7f", " ", "\t", `"`, `\`, `\u12`, `\x`}
+	for _, k := range ks {
+		run := make([]byte, k)
+		for i := range run {
+			run[i] = 'a' + byte(i%23)
+		}
+		emit := func(el []byte) {
+			for _, tail := range []string{"", "zz", "0123456789abcdef"} {
+				t := append(append(append(append([]byte{'"'}, run...), el...), tail...), '"')
+				fn(t, k)
+			}
+		}
+		for _, e := range elems {
+			emit([]byte(e))
+		}
+		if k <= allBytesUpTo {
+			for b := 0; b < 256; b++ {
+				emit([]byte{byte(b)})
+			}
+		}
+	}
+}
